@@ -95,7 +95,7 @@ def cov? (o : Obs α) (n : String) : Option (CovIn α) := o.covs.find? (·.name 
 def mcNames (o : Obs α) : List String := Py.sortedSetStr (o.names.map Py.ensOf)
 /-- `e_content[e]`: chains `e|...` sorted, followed by the chain called exactly `e` -/
 def eContent (o : Obs α) (e : String) : List (Rep α) :=
-  (o.reps.filter (fun r => (e ++ "|").isPrefixOf r.name)) ++ (o.reps.filter (fun r => r.name == e))
+  (o.reps.filter (fun r => (e ++ "|").toList.isPrefixOf r.name.toList)) ++ (o.reps.filter (fun r => r.name == e))
 /-- value of the fluctuation on configuration `c` of chain `n`; `none` if not measured -/
 def delta? (o : Obs α) (n : String) (c : Int) : Option α := do
   let r ← o.rep? n
